@@ -135,21 +135,31 @@ def writer_events(w):
                    "injected": False, "closecalled": False, "single": False, "handler": False, "hcalls": 0, "hsum": 0, "storedsum": 0,
                    "expflg": 0, "expbd": 0, "expcsize": [], "reconf": False})
         return ev
-    prev_calls, prev_sink = 0, 0
+    prev_calls, prev_sink, life_base = 0, 0, 0
+    lives = [{"injected": False, "closecalled": False}]     # per life of the Writer (a Reset starts a new one)
     for i, c in enumerate(w["calls"]):
         dcalls, dsink = c["calls"] - prev_calls, c["sink"] - prev_sink
         prev_calls, prev_sink = c["calls"], c["sink"]
+        lifefails = c.get("fails", 0) - life_base      # sink calls that failed since the last Reset (the call included)
+        if c["op"] == "reset":
+            life_base = c.get("fails", 0)
+            lives.append({"injected": False, "closecalled": False})
+        else:
+            lives[-1]["injected"] = lives[-1]["injected"] or lifefails > 0
+            lives[-1]["closecalled"] = lives[-1]["closecalled"] or c["op"] == "close"
         if i == 0 and c["op"] == "apply":
             continue          # NewWriter + Apply(options): before the first write, no sink access
         ev.append({"ev": "wcall", "case": w["case"], "op": c["op"], "n": c["n"], "ret": c["ret"], "err": c["err"],
                    "dcalls": dcalls, "dsink": dsink, "dec": c["dec"], "decsame": c["decsame"],
-                   "st": (c.get("st") or "").replace("State", "")})
+                   "st": (c.get("st") or "").replace("State", ""), "lifefails": lifefails})
     for k, f in enumerate(w["frames"]):
         ev.append({"ev": "wend", "case": w["case"], "seg": k + 1, "status": f["status"], "same": f["same"],
                    "blocks": [b["dec"] for b in f["blocks"]], "contentLen": f["contentLen"], "consumed": f["consumed"],
                    "segLen": f["segLen"], "flg": f["flg"], "bd": f["bd"], "csize": f["csize"], "clean": w["panicked"] == "",
-                   "sinkIsPrefix": w.get("sinkIsPrefix", True), "injected": w.get("injected", False),
-                   "closecalled": any(c["op"] == "close" for c in w["calls"]),
+                   "sinkIsPrefix": w.get("sinkIsPrefix", True),
+                   # without per-call failure counts (older records): the flags of the whole run
+                   "injected": lives[min(k, len(lives) - 1)]["injected"] if any("fails" in c for c in w["calls"]) else w.get("injected", False),
+                   "closecalled": lives[min(k, len(lives) - 1)]["closecalled"] if len(lives) > 1 else any(c["op"] == "close" for c in w["calls"]),
                    "expflg": (w.get("expdesc") or [[flg, bd, csize]] * (k + 1))[k][0], "expbd": (w.get("expdesc") or [[flg, bd, csize]] * (k + 1))[k][1],
                    "expcsize": (w.get("expdesc") or [[flg, bd, csize]] * (k + 1))[k][2], "reconf": bool(w.get("expdesc")),
                    "single": len(w["frames"]) == 1, "handler": bool(o.get("handler")), "hcalls": len(w.get("handler") or []),
